@@ -203,6 +203,10 @@ FIXED = [
     {"reactions": [(["H", "#CO"], ["#H", "CO"]), (["CO"], ["#CO"]), (["CO"], ["#CO"])], "required": ["GRAIN0"]},
     {"reactions": [(["H", "O"], ["OH"])], "required": [],
      "ode_modifier": {"H": {"factors": ["-2.0 * k[0]"], "reactants": [["H", "O"]]}, "OH": {"factors": ["1.5", "zeta"], "reactants": [["OH"], ["H", "H", "O"]]}}},
+    # terms longer than the statement-wrapping width (three long names: a blank-free term of 77 and more characters)
+    {"reactions": [(["CH3CH2CH2CH2OH", "CH3OCH2CH2OCH3", "CH3CH2OCH2CH2CH2OH"], ["C16H38O5"]), (["C16H38O5"], ["CH3CH2CH2CH2OH", "CH3OCH2CH2OCH3", "CH3CH2OCH2CH2CH2OH"]),
+                   (["CH3CH2OCH2CH2CH2OH", "CH3CH2OCH2CH2CH2OH", "CH3CH2OCH2CH2CH2OH"], ["CH3CH2CH2CH2OH", "H"])], "required": [],
+     "ode_modifier": {"H": {"factors": ["-2.0*k[0]*zeta*(nH+1.0e-30)*(1.0e+00+2.5e-01*zeta)/(3.0e+00+zeta*zeta*zeta*zeta*zeta*zeta)"], "reactants": [["H"]]}}},
 ]
 
 
